@@ -7,7 +7,7 @@ the real checks.NewSeriesCheck runs each scenario against the REAL PromQL engine
 mode); TLC judges the recorded problems with the antecedents of P1 / P2 taken from the engine's own answers.
 """
 import json
-import random
+import os
 
 import vlib
 from vlib import prints, write_ndjson, read_ndjson, MachineryError
@@ -39,32 +39,30 @@ def run(ctx, cases_override=None):
     thorough = ctx.thorough
     leads = []
     if cases_override is None:
-        # ---- MC + GEN in one exploration: the impl-shaped decision tree satisfies P1 and P2 on every scenario of
-        # the model, and every scenario is emitted as a case
-        mc = ctx.tlc("SeriesCheck", "SeriesCheck_MCGen.cfg", tag="mc+gen", timeout=3000, workers=6, heap="4g", allow_violation=True)
-        gen = mc
+        w = int(os.environ.get("VERIF_TLC_WORKERS") or min(vlib.NCPU, 16))
+        # ---- MC: the impl-shaped decision tree satisfies P1 and P2 on EVERY scenario of the model
+        mc = ctx.tlc("SeriesCheck", "SeriesCheck_MC.cfg", tag="mc", timeout=3000, workers=w, heap="4g", allow_violation=True)
         if mc["invariant_violated"]:
             leads.append(mc["invariant_violated"])
-            gen = ctx.tlc("SeriesCheck", "SeriesCheck_Gen.cfg", tag="gen", timeout=3000, workers=6, heap="4g")
-        allc = [v[0] for v in prints(gen, "CASE")]
-        allc.sort(key=lambda c: json.dumps(c, sort_keys=True))
-        total = len(allc)
-        rnd = random.Random(ctx.seed)
-        if thorough:
-            # every never-present scenario (the P2 stratum) and a seeded sample of 150,000 of the others
-            cases = [c for c in allc if c["han"] == "never" and c["hbn"] == "never"]
-            rest = [c for c in allc if not (c["han"] == "never" and c["hbn"] == "never")]
-            cases += rnd.sample(rest, min(len(rest), 150000))
-        else:
-            # every scenario in which the metric has no sample at all (the P2 stratum: 4,725 scenarios), plus a sample of
-            # the rest stratified by selector shape, so that every shape sees every kind of history
-            cases = [c for c in allc if c["han"] == "never" and c["hbn"] == "never"]
-            by = {}
-            for c in allc:
-                if not (c["han"] == "never" and c["hbn"] == "never"):
-                    by.setdefault(c["shape"], []).append(c)
-            for sh in sorted(by):
-                cases += rnd.sample(by[sh], min(len(by[sh]), 200))
+        # ---- GEN (a): every scenario whose metric never had a sample - the stratum in which P2 speaks
+        gen = ctx.tlc("SeriesCheck", "SeriesCheck_GenNever.cfg", tag="gen-never", timeout=3000, workers=w, heap="4g", allow_violation=True)
+        cases = [v[0] for v in prints(gen, "CASE")]
+        cases.sort(key=lambda c: json.dumps(c, sort_keys=True))
+        n_never = len(cases)
+        # ---- GEN (b): simulation over the whole space (seeded): one scenario per behaviour
+        want = 150000 if thorough else 3000
+        sim = ctx.tlc("SeriesCheck", "SeriesCheck_Gen.cfg", tag="gen-sim", timeout=3000, workers=w, heap="4g",
+                      simulate=max(1, want // w), depth=6)
+        seen = {json.dumps(c, sort_keys=True) for c in cases}
+        simc = []
+        for v in prints(sim, "CASE"):
+            k = json.dumps(v[0], sort_keys=True)
+            if k not in seen:
+                seen.add(k)
+                simc.append(v[0])
+        simc.sort(key=lambda c: json.dumps(c, sort_keys=True))
+        cases += simc
+        total = 7 * 7 * 81 * 3 * 6 * 9
         mcs = [mc]
     else:
         cases, total, mcs = cases_override, 0, []
@@ -112,6 +110,7 @@ def run(ctx, cases_override=None):
                 "non-trivial = the check sent at least one probe or reported something (not skipped by a comment)",
         "exhaustive": False,
         "scenario_space": total,
+        "scenarios_never_present_all": n_never if cases_override is None else 0,
         "p1_antecedent_true": p1,
         "p2_antecedent_true": p2,
         "problem_classes_observed": classes,
